@@ -488,7 +488,7 @@ def tangent_layout(case):
     return out
 
 
-def fd_jacobian(case, param_values, target_free=True):
+def fd_jacobian(case, param_values, target_free=True, full=False):
     """Jacobian of the stacked, flattened outputs with respect to the parameters' tangent coordinates (left
     perturbation Exp(t e_c) @ X for group items, x + t e_c otherwise), in float64 by Richardson-extrapolated central
     differences on the real forward pass.  Columns are laid out in *storage* order (a group item occupies its storage
@@ -515,7 +515,8 @@ def fd_jacobian(case, param_values, target_free=True):
     rel = 0.0
     col0 = 0
     ntan = sum(n * td for (_, _, n, _, td) in lay)
-    stride = max(1, ntan // 6)          # Richardson (two step sizes) on about six columns only: the reliability estimate
+    stride = 1 if full else max(1, ntan // 6)     # Richardson (two step sizes) on about six columns only: the reliability
+    # estimate; `full=True` (used to re-judge a mismatch) extrapolates every column
     kcol = 0
     H = 1e-5
 
